@@ -5,6 +5,8 @@ import (
 	"go/token"
 	"go/types"
 	"sort"
+	"strconv"
+	"strings"
 
 	"golang.org/x/tools/go/ssa"
 )
@@ -62,6 +64,12 @@ func requestTypes(c *Ctx, rule string) (top, specific []types.Type) {
 			}
 		}
 	})
+	for _, t := range p.extendedDecodeTable() {
+		if p.isRequestType(t) && typeName(t) != "sshFxpExtendedPacket" && !seen[t.String()] {
+			seen[t.String()] = true
+			specific = append(specific, t)
+		}
+	}
 	sort.Slice(top, func(i, j int) bool { return top[i].String() < top[j].String() })
 	sort.Slice(specific, func(i, j int) bool { return specific[i].String() < specific[j].String() })
 	return
@@ -348,4 +356,123 @@ func (p *Program) methodOf(t types.Type, name string) *ssa.Function {
 		return nil
 	}
 	return p.SSA.MethodValue(sel)
+}
+
+// extendedDecodeTable: extension name -> the concrete type of the specific packet the extended decoder builds for it.
+// Read from (*sshFxpExtendedPacket).UnmarshalBinary in whichever way it is written: a switch (or if-chain) on the name
+// whose arms store a value into SpecificPacket, or a package-level map from names to constructors whose result is
+// stored there (the map's contents come from the interpreter's pass over the package initialiser).
+func (p *Program) extendedDecodeTable() map[string]types.Type {
+	if p.extTable != nil {
+		return p.extTable
+	}
+	out := map[string]types.Type{}
+	p.extTable = out
+	ub := p.Func("(*sshFxpExtendedPacket).UnmarshalBinary")
+	if ub == nil {
+		return out
+	}
+	concreteOf := func(v ssa.Value) types.Type {
+		for i := 0; i < 4; i++ {
+			switch x := v.(type) {
+			case *ssa.MakeInterface:
+				return x.X.Type()
+			case *ssa.ChangeInterface:
+				v = x.X
+			default:
+				return nil
+			}
+		}
+		return nil
+	}
+	storesSpecific := func(b *ssa.BasicBlock) ssa.Value {
+		for _, in := range b.Instrs {
+			if st, ok := in.(*ssa.Store); ok {
+				if _, n, _, ok := fieldOf(st.Addr); ok && n == "SpecificPacket" && !isNilConst(st.Val) {
+					return st.Val
+				}
+			}
+		}
+		return nil
+	}
+	// the switch form
+	for _, b := range ub.Blocks {
+		iff, ok := b.Instrs[len(b.Instrs)-1].(*ssa.If)
+		if !ok {
+			continue
+		}
+		cmp, ok := iff.Cond.(*ssa.BinOp)
+		if !ok || cmp.Op != token.EQL {
+			continue
+		}
+		s, ok := constString(cmp.Y)
+		if !ok {
+			continue
+		}
+		if v := storesSpecific(b.Succs[0]); v != nil {
+			if t := concreteOf(v); t != nil {
+				out[s] = t
+			}
+		}
+	}
+	// the table form: SpecificPacket = table[name]()  (the call's function value comes from a lookup in a global map)
+	eachInstr(ub, func(in ssa.Instruction) {
+		st, ok := in.(*ssa.Store)
+		if !ok {
+			return
+		}
+		if _, n, _, ok := fieldOf(st.Addr); !ok || n != "SpecificPacket" {
+			return
+		}
+		v := st.Val
+		if ci, ok := v.(*ssa.ChangeInterface); ok {
+			v = ci.X
+		}
+		call, ok := v.(*ssa.Call)
+		if !ok || call.Call.IsInvoke() || call.Call.StaticCallee() != nil {
+			return
+		}
+		fv := call.Call.Value
+		if ex, ok := fv.(*ssa.Extract); ok {
+			fv = ex.Tuple
+		}
+		lk, ok := fv.(*ssa.Lookup)
+		if !ok {
+			return
+		}
+		ld, ok := lk.X.(*ssa.UnOp)
+		if !ok || ld.Op != token.MUL {
+			return
+		}
+		g, ok := ld.X.(*ssa.Global)
+		if !ok {
+			return
+		}
+		ev := newEvaluator(p)
+		slot, ok := ev.globalScalars(g.Pkg).fields["g:"+g.Name()]
+		if !ok || slot.k != evObject {
+			return
+		}
+		for k, e := range slot.obj.fields {
+			if !strings.HasPrefix(k, "k:") || e.k != evFunc || e.fn == nil {
+				continue
+			}
+			name, err := strconv.Unquote(k[2:])
+			if err != nil {
+				continue
+			}
+			var t types.Type
+			eachInstr(e.fn, func(x ssa.Instruction) {
+				if r, ok := x.(*ssa.Return); ok && len(r.Results) == 1 {
+					if ct := concreteOf(r.Results[0]); ct != nil {
+						t = ct
+					}
+				}
+			})
+			if t != nil {
+				out[name] = t
+			}
+		}
+	})
+	return out
 }
